@@ -223,6 +223,9 @@ def arr_getitem(interp, v, idx, numba, node):
     if isinstance(idx, SliceVal):
         start, stop = slice_bounds(idx, v.n)
         ln = slice_len(start, stop)
+        if v.np:
+            return Arr(ln, (lambda k, v=v, start=start: v.fn(ops.arith('+', k, start))), np=True, cols=v.cols,
+                       view=True, vbase=v, voff=start)
         return Arr(ln, (lambda k, fn=v.fn, start=start: fn(ops.arith('+', k, start))), np=v.np, cols=v.cols,
                    view=v.np, prov=('slice', v.snap(), start))
     if isinstance(idx, tuple):
@@ -238,8 +241,8 @@ def arr_getitem(interp, v, idx, numba, node):
             if isinstance(r, SliceVal):
                 start, stop = slice_bounds(r, v.n)
                 ln = slice_len(start, stop)
-                base = Arr(ln, (lambda k, fn=v.fn, start=start: fn(ops.arith('+', k, start))), np=True, cols=v.cols,
-                           prov=('slice', v.snap(), start))
+                base = Arr(ln, (lambda k, v=v, start=start: v.fn(ops.arith('+', k, start))), np=True, cols=v.cols,
+                           view=True, vbase=v, voff=start)
                 return Arr(ln, (lambda k, fn=v.fn, start=start, c=c: fn(ops.arith('+', k, start)).e[c]), np=True,
                            view=True, prov=('rowmap', (lambda row, c=c: row.e[c]), base))
             i = check_index(interp, v, r, numba, node)
@@ -251,7 +254,7 @@ def arr_getitem(interp, v, idx, numba, node):
         i = check_index(interp, v, idx, numba, node)
         x = v.fn(i)
         if isinstance(x, Vec):
-            x = Vec(x.e, view=True)
+            x = Vec(x.e, view=True, base=(v, i) if v.np else None)
         return x
     if isinstance(idx, Arr):
         raise OutOfSubset('fancy / mask indexing')
@@ -306,6 +309,15 @@ def setitem(interp, v, idx, val, numba=False, node=None):
             return
         raise OutOfSubset('list store')
     if isinstance(v, Vec):
+        if v.view and v.base is not None and isinstance(idx, int):
+            # row view of a 2-D array: write through
+            arr, r = v.base
+            try:
+                v.e[idx] = val
+            except IndexError:
+                raise RaiseSignal('IndexError', 'index out of bounds')
+            arr_setitem(interp, _root(arr), (_root_index(arr, r), idx % len(v.e)), val, numba, node)
+            return
         if v.view:
             raise OutOfSubset('store through a numpy view (row or slice of another array)')
         if isinstance(idx, int):
@@ -337,6 +349,9 @@ def setitem(interp, v, idx, val, numba=False, node=None):
         raise OutOfSubset('Vec store')
     if isinstance(v, Arr):
         if v.view:
+            if v.vbase is not None and isinstance(idx, (int, Sym)) and not isinstance(idx, bool):
+                i = check_index(interp, v, idx, numba, node)
+                return arr_setitem(interp, _root(v), _root_index(v, i), val, numba, node)
             raise OutOfSubset('store through a numpy view (slice of another array)')
         return arr_setitem(interp, v, idx, val, numba, node)
     if isinstance(v, Obj) and v.cls is not None:
@@ -345,6 +360,19 @@ def setitem(interp, v, idx, val, numba=False, node=None):
             interp.call_repo(m, [v, idx, val], {}, self_obj=v)
             return
     raise OutOfSubset(f'subscript store on {kind_of(v)}')
+
+
+def _root(a):
+    while getattr(a, 'vbase', None) is not None:
+        a = a.vbase
+    return a
+
+
+def _root_index(a, i):
+    while getattr(a, 'vbase', None) is not None:
+        i = ops.arith('+', i, a.voff)
+        a = a.vbase
+    return i
 
 
 def arr_setitem(interp, v, idx, val, numba, node):
@@ -591,6 +619,9 @@ def same_base(x, y):
         return True
     if x.prov and y.prov and x.prov[0] == 'slice' and y.prov[0] == 'slice':
         return same_base(x.prov[1], y.prov[1]) and ops.equal(x.prov[2], y.prov[2]) is True and ops.equal(x.n, y.n) is True
+    xb, yb = getattr(x, 'vbase', None), getattr(y, 'vbase', None)
+    if xb is not None and yb is not None:
+        return same_base(xb, yb) and ops.equal(x.voff, y.voff) is True and ops.equal(x.n, y.n) is True
     return False
 
 
@@ -609,6 +640,8 @@ def _prefix_uf(interp, A, g):
 def _step_axiom(interp, A, g, j, depth=0):
     """instantiate P(j+1) = P(j) + g(A[j]) for the prefix-sum functions of the base arrays under A (the recurrence is
     consistent for every integer j, so instances are added unconditionally)"""
+    if getattr(A, 'vbase', None) is not None:
+        return _step_axiom(interp, A.vbase, g, ops.arith('+', j, A.voff), depth + 1)
     prov = A.prov
     if depth > 8:
         return
@@ -636,6 +669,8 @@ def sum_range(interp, A, g, lo, hi):
     """sum of g(A[k]) for lo <= k < hi (hi >= lo is the caller's duty), rewritten along A's provenance; the axioms used are
     those of finite sums: empty range, split of a range, one-element range."""
     used('numpy.sum (finite-sum axioms: split, single element, congruence)')
+    if getattr(A, 'vbase', None) is not None:
+        return sum_range(interp, A.vbase, g, ops.arith('+', lo, A.voff), ops.arith('+', hi, A.voff))
     prov = A.prov
     mn, mx = ops.vmin, ops.vmax
     if isinstance(lo, int) and isinstance(hi, int) and hi - lo <= 32:
